@@ -2,6 +2,7 @@ package props
 
 import (
 	"bytes"
+	"context"
 	"crypto/sha256"
 	"fmt"
 	"math"
@@ -11,6 +12,7 @@ import (
 	"strings"
 	"testing"
 
+	"github.com/yaricom/goNEAT/v4/experiment"
 	"github.com/yaricom/goNEAT/v4/neat"
 	"github.com/yaricom/goNEAT/v4/neat/genetics"
 	"pgregory.net/rapid"
@@ -24,8 +26,9 @@ func fbits(x float64) string { return fmt.Sprintf("%x", math.Float64bits(x)) }
 func canonicalDump(pop *genetics.Population) string {
 	var b strings.Builder
 	inn, nid := pop.VerifCounters()
-	fmt.Fprintf(&b, "pop last_species=%d highest=%s epochs_highest=%d winner_gen=%d next_innov=%d next_node=%d innovations=%d\n",
-		pop.LastSpecies, fbits(pop.HighestFitness), pop.EpochsHighestLastChanged, pop.WinnerGen, inn, nid, len(pop.Innovations()))
+	fmt.Fprintf(&b, "pop last_species=%d highest=%s epochs_highest=%d winner_gen=%d next_innov=%d next_node=%d innovations=%d mean=%s variance=%s stddev=%s final_gen=%d\n",
+		pop.LastSpecies, fbits(pop.HighestFitness), pop.EpochsHighestLastChanged, pop.WinnerGen, inn, nid, len(pop.Innovations()),
+		fbits(pop.MeanFitness), fbits(pop.Variance), fbits(pop.StandardDev), pop.FinalGen)
 	spIndex := map[*genetics.Species]int{}
 	for i, sp := range pop.Species {
 		spIndex[sp] = i
@@ -77,6 +80,34 @@ func interfere(k int64) {
 	if len(interferenceSink) > 400 {
 		interferenceSink = interferenceSink[200:]
 	}
+	// other parts of the library at work: a genome written and read in both encodings, expressed, its network and its fast
+	// solver activated, a small experiment run to its end
+	g := xorStart().Build()
+	for _, enc := range []genetics.GenomeEncoding{genetics.PlainGenomeEncoding, genetics.YAMLGenomeEncoding} {
+		var buf bytes.Buffer
+		if w, err := genetics.NewGenomeWriter(&buf, enc); err == nil && w.WriteGenome(g) == nil {
+			if r, err := genetics.NewGenomeReader(&buf, enc); err == nil {
+				_, _ = r.Read()
+			}
+		}
+	}
+	if net, err := g.Genesis(int(k % 100)); err == nil {
+		_ = net.LoadSensors([]float64{1, 0, 1})
+		_, _ = net.ForwardSteps(2)
+		if fs, err := net.FastNetworkSolver(); err == nil {
+			_ = fs.LoadSensors([]float64{0, 1})
+			_, _ = fs.RecursiveSteps()
+		}
+	}
+	{
+		eo := defaultOpts()
+		eo.PopSize, eo.NumRuns, eo.NumGenerations = 6, 2, 2
+		opts := eo.Build()
+		ec := C20Case{Trials: 2, Generations: 2, SolvedAt: []int{-1, 1}, Fault: "none", PopSize: 6}
+		exp := &experiment.Experiment{Id: 1, Name: "unrelated"}
+		_ = exp.Execute(neat.NewContext(context.Background(), opts), xorStart().Build(), &protoRecorder{c: ec, cancel: func() {}, pops: map[*genetics.Population]int{}}, nil)
+		_ = exp.AvgWinnerStatistics
+	}
 	m := map[int]*int{}
 	for i := 0; i < 300; i++ {
 		v := i
@@ -100,7 +131,19 @@ func evolve(sc Scenario, rec *Rec) (dump string, written string, grew bool, err 
 	}()
 	startGenes := 0
 	var final *genetics.Population
+	// the population right after construction and after every turnover, one digest per line in front of the final dump: two
+	// runs must agree all the way, not only at the end
+	var trail strings.Builder
+	note := func(when string, pop *genetics.Population) {
+		fmt.Fprintf(&trail, "%s %x\n", when, sha256.Sum256([]byte(canonicalDump(pop))))
+	}
+	defer func() {
+		if err == nil && dump != "" {
+			dump = trail.String() + dump
+		}
+	}()
 	err = runScenario(sc, epochHooks{
+		built: func(pop *genetics.Population, _ *neat.Options) error { note("constructed", pop); return nil },
 		before: func(e int, pop *genetics.Population) error {
 			if e == 0 {
 				for _, o := range pop.Organisms {
@@ -110,7 +153,13 @@ func evolve(sc Scenario, rec *Rec) (dump string, written string, grew bool, err 
 			final = pop
 			return nil
 		},
-		after: func(e int, pop *genetics.Population) error { final = pop; return nil },
+		after: func(e int, pop *genetics.Population) error {
+			final = pop
+			if len(pop.Organisms) <= 200 {
+				note(fmt.Sprintf("after epoch %d", e), pop)
+			}
+			return nil
+		},
 	}, rec)
 	if err != nil || final == nil {
 		return "", "", false, err
